@@ -55,6 +55,10 @@ def _hostile_sig(name):
     return "abort-in-" + name
 
 
+# scenarios that are slow by nature (wall-clock budget in seconds)
+LONG_SCENARIOS = {"id-counter-wrap": 600, "many-threads-span-ids": 240}
+
+
 def run_hostile(core, prop, work, names, release=False):
     import json, subprocess, time
     out = []
@@ -68,7 +72,7 @@ def run_hostile(core, prop, work, names, release=False):
         procs.append((nme, p, o, time.time(), log))
     for nme, p, o, t0, log in procs:
         try:
-            rc = p.wait(timeout=max(1, 90 - (time.time() - t0)))
+            rc = p.wait(timeout=max(1, LONG_SCENARIOS.get(nme, 90) - (time.time() - t0)))
         except subprocess.TimeoutExpired:
             p.kill()
             p.wait()
@@ -116,7 +120,8 @@ def c07(prop, tier, seed, core):
     m = core.merge(prop, tier, seed, fixed, known, engine="progsim")
     m["violations"].extend(extra_viol)
     # hostile scenarios, one process each
-    add_hostile(m, core, prop, work, tier, HOSTILE, known_sigs)
+    # also 2^32 span ids on one thread (the per-thread counter wraps; about ten seconds)
+    add_hostile(m, core, prop, work, tier, HOSTILE + ["id-counter-wrap", "deep-backlog", "deep-backlog-cancel"], known_sigs)
     if tier == "thorough":
         add_sanitizers(m, core, prop, work, seed)
     m["rule"] = (core.RULES["progsim"] + " C07 adds: programs from a hostile profile (40% no-op parents, empty parent sets, 25% unsampled roots, property "
@@ -218,9 +223,10 @@ def c01(prop, tier, seed, core):
         add_tsan_quick(m, core, prop, os.path.join(core.WORK, prop), seed)
         m["rule"] = core.RULES["progsim"] + " The quick tier also runs the stress engine (4500 jobs, two configurations) in a ThreadSanitizer build with an instrumented standard library; a report is a violation."
     # the background collector on its own: a delayed last command followed by silence
-    add_hostile(m, core, prop, os.path.join(core.WORK, prop), tier, ["lone-late-send"], [e["signature"] for e in core.known_for(prop)])
+    add_hostile(m, core, prop, os.path.join(core.WORK, prop), tier, ["lone-late-send", "reconfigure-interval"], [e["signature"] for e in core.known_for(prop)])
     m["rule"] += (" One separate process: 36 rounds in which a thread's last command is held up for 0.5-9.5 ms right before it enters the queue, the thread exits, "
-                  "and nothing calls into the library afterwards; the background collector (2 ms interval) must report the span.")
+                  "and nothing calls into the library afterwards; the background collector (2 ms interval) must report the span. Another process configures a 1 h report interval, then re-configures 5 ms and waits for "
+                  "background delivery.")
     return m
 
 
@@ -285,6 +291,21 @@ def c03(prop, tier, seed, core):
 
 
 HANDLERS["C03"] = c03
+
+
+def c08(prop, tier, seed, core):
+    m = core.check_progsim_family(prop, tier, seed)
+    work = os.path.join(core.WORK, prop)
+    known_sigs = [e["signature"] for e in core.known_for(prop)]
+    # retained state measured from outside: live heap bytes of the process over identical rounds
+    add_hostile(m, core, prop, work, tier, ["steady-state-heap", "steady-state-heap-cancelable"], known_sigs)
+    m["rule"] = core.RULES["progsim"] + (" Every twelfth program contains a queue-full episode. Two separate processes (one per configuration) run 45 identical rounds of 20 finished "
+                                          "traces each (late children and late attachments after the root, cancels, children on other threads, unsampled traces) under a counting "
+                                          "allocator: the live heap of the process must not keep growing from round to round (whatever container would hold the state).")
+    return m
+
+
+HANDLERS["C08"] = c08
 
 
 def c02(prop, tier, seed, core):
